@@ -28,6 +28,7 @@ func rulesC01(c *Ctx) {
 	ruleRetryAfterInstall(c)
 	ruleOpResultID(c)
 	ruleFatalEndsSession(c)
+	ruleTableKeyIdentity(c)
 }
 
 // R1.2
@@ -304,4 +305,96 @@ func ruleExplicitReplace(c *Ctx) {
 		}
 	}
 	c.check(ok && pass == 5, rule, fi.Name, "explicitReplace ⇔ operation is REPLACE, passed to all five AddXXX", c.P.pos(fi.Decl.Pos()), "5 call sites", fmt.Sprintf("explicit-replace flag derivation or propagation deviates (derived=%v, passed to %d of 5 AddXXX)", ok, pass))
+}
+
+// TABLE-KEY-IDENTITY — the installed tables are keyed by the install step with the key exactly as the
+// client wrote it (the candidate is merged under the entry's own key). Every other access of a holder to
+// its tables — existence tests, retrievals, deletes — must therefore use the key it was handed, unchanged:
+// a helper that normalises, parses or otherwise rewrites its key looks in a different slot than the
+// install wrote, so an entry installed under a non-canonical spelling can no longer be found, replaced
+// explicitly or deleted, and its references are never released. Allowed in a key: identifiers, field
+// selections, getters of the entry (Get…()), and type conversions (range-checked separately by
+// KEY-NARROWING).
+func ruleTableKeyIdentity(c *Ctx) {
+	const rule = "TABLE-KEY-IDENTITY"
+	n := 0
+	for _, fi := range c.P.AllFuncs("rib") {
+		if fi.Decl.Body == nil || recvTypeName(fi.Obj) != "RIBHolder" {
+			continue
+		}
+		info := fi.Pkg.TypesInfo
+		var keys []ast.Expr
+		ast.Inspect(fi.Decl.Body, func(m ast.Node) bool {
+			switch x := m.(type) {
+			case *ast.IndexExpr:
+				if tableOfExpr(info, x.X) != "" && rootedAtHolderR(info, x.X) {
+					keys = append(keys, x.Index)
+				}
+			case *ast.CallExpr:
+				if id, ok := ast.Unparen(x.Fun).(*ast.Ident); ok && id.Name == "delete" && len(x.Args) == 2 {
+					if _, isB := info.Uses[id].(*types.Builtin); isB && tableOfExpr(info, x.Args[0]) != "" && rootedAtHolderR(info, x.Args[0]) {
+						keys = append(keys, x.Args[1])
+					}
+				}
+			}
+			return true
+		})
+		if len(keys) == 0 {
+			continue
+		}
+		c.Analysed[fi.Name] = true
+		bad := ""
+		for _, k := range keys {
+			n++
+			c.Sites++
+			if why := keyRewritten(info, fi.Decl, k, 0); why != "" {
+				bad = fmt.Sprintf("the table is accessed under %s, which passes the key through %s: the install step files the entry under the key as the client wrote it, so this access looks in a different slot", types.ExprString(k), why)
+			}
+		}
+		c.check(bad == "", rule, fi.Name, "tables are accessed under the key as handed in", c.P.pos(fi.Decl.Pos()), fmt.Sprintf("%d table accesses, keys unchanged", len(keys)), bad)
+	}
+	c.floor(rule, "keyed accesses to installed tables in RIBHolder methods", n, 20)
+}
+
+// keyRewritten returns the name of a call that rewrites the key expression ("" when the key is plain).
+func keyRewritten(info *types.Info, fd *ast.FuncDecl, e ast.Expr, depth int) string {
+	why := ""
+	ast.Inspect(e, func(m ast.Node) bool {
+		if why != "" {
+			return false
+		}
+		switch x := m.(type) {
+		case *ast.CallExpr:
+			if tv, ok := info.Types[x.Fun]; ok && tv.IsType() {
+				return true // conversion
+			}
+			if se, ok := ast.Unparen(x.Fun).(*ast.SelectorExpr); ok && len(x.Args) == 0 && strings.HasPrefix(se.Sel.Name, "Get") {
+				return true // getter of the entry
+			}
+			why = types.ExprString(x.Fun)
+			return false
+		case *ast.Ident:
+			// a local defined once stands for its definition
+			if v, ok := info.ObjectOf(x).(*types.Var); ok && !v.IsField() && !isParamOf(info, fd, v) && depth < 4 {
+				// bound to the result of a helper that was spliced in: the helper computes the key
+				for _, fr := range inlineFrames {
+					for _, l := range fr.Lhs {
+						if objOfIdent(info, l) == v {
+							why = fr.CalleeObj.Name()
+						}
+					}
+				}
+				if def := soleDefinition(info, fd, v); def != nil && why == "" {
+					if w := keyRewritten(info, fd, def, depth+1); w != "" {
+						why = w
+					}
+				}
+			}
+		case *ast.BinaryExpr:
+			why = "an arithmetic/string operation (" + x.Op.String() + ")"
+			return false
+		}
+		return true
+	})
+	return why
 }
